@@ -164,6 +164,9 @@ try:
     CASES.update(c04_mgmt.CASES)
 except ImportError:
     c04_mgmt = None
+from vt.props import c04_coap  # noqa: E402
+
+CASES.update(c04_coap.CASES)
 
 
 def _work(item, seed, tier):
@@ -173,6 +176,8 @@ def _work(item, seed, tier):
         v = CASES[name](p)
         vac = p.pop("_vacuous_style", False)
         nontrivial = p.get("err") != "absent" or p.get("state") not in ("expected", "absent")
+        if p["step"] == "coap-remove":
+            p = dict(p, err=p["reply"], state="n/a")
         acc.case(key=(name, core.jsonable(p)), outcome=f"{p['step']}:{'honest-fails-under-style:' + str(p.get('wire')) if vac else ('ok' if not v else v[0][0])}", nontrivial=nontrivial,
                  sample={"case": name, "params": p}, symbols=(p["step"], f"err:{p['err']}", f"state:{p['state']}", f"style:{p['style']}"))
         for sig, detail in v:
@@ -211,11 +216,12 @@ def run(ctx):
     work = list(cells())
     if c04_mgmt is not None:
         work += list(c04_mgmt.cells(ctx.tier))
+    work += list(c04_coap.cells(ctx.tier))
     # cheap cells in bigger chunks, SRP-bound cells in small ones
     chunks, cur = [], []
     for w in work:
         cur.append(w)
-        limit = 6 if w[1]["step"] in ("setup-m4", "setup-m6") else 60
+        limit = 6 if w[1]["step"] in ("setup-m4", "setup-m6", "coap-setup-m4", "coap-setup-m6") else 60
         if len(cur) >= limit:
             chunks.append(cur)
             cur = []
@@ -224,5 +230,5 @@ def run(ctx):
     ctx.pmap(_work, chunks)
     ctx.exhaustive = True
     ctx.bounds.update(steps=list(STEPS) + (list(c04_mgmt.STEPS) if c04_mgmt else []), errors=list(ERRORS), states=STATES, error_positions=["first", "afterstate", "last"], styles=list(pairdrv.STYLES))
-    for s in STEPS:
+    for s in list(STEPS) + list(c04_coap.STEPS):
         ctx.require(ctx.acc.symbols[s] > 0, f"step {s} never exercised")
